@@ -81,10 +81,28 @@ class Grid:
                   np.max(np.abs(2 * yc / dy - np.round(2 * yc / dy))))
         t["thetadev"] = int(min(dev * 1e6, 10**9))
         t["dy_core"] = int(round(2 * np.pi / dy))
-        t.update({"name": self.cfg["name"], "topo": self.cfg["topo"], "nx": self.cfg["nx"], "ny": self.cfg["ny"], "G": self.extra["G"],
+        topo, nx, ny = self.realised()
+        t.update({"name": self.cfg["name"], "topo": topo, "nx": nx, "ny": ny, "G": self.extra["G"],
                   "orth": 1 if self.extra["orthogonal"] else 0, "NX": int(th.shape[0]), "NY": int(th.shape[1])})
         # per mesh region quantised psi values (index k <-> psi_vals[k])
         return t
+
+    def realised(self):
+        """(topology, nx per segment, ny per region) of the mesh that was actually built: it differs from the configuration when the
+        code decides for another topology (a double-null input whose second X-point lies beyond psinorm_sol is gridded as a single null)"""
+        topo, nx, ny = self.cfg["topo"], self.cfg["nx"], self.cfg["ny"]
+        regs = sorted(self.extra.get("regions", []), key=lambda r: r["id"])
+        names = []
+        for r in regs:
+            if r["eqname"] not in names:
+                names.append(r["eqname"])
+        sn = {("inner_lower_divertor", "core", "outer_lower_divertor"): "LSN", ("outer_upper_divertor", "core", "inner_upper_divertor"): "USN"}
+        if tuple(names) in sn and topo not in ("LSN", "USN"):
+            topo = sn[tuple(names)]
+            first = [r for r in regs if r["eqname"] == names[0]]
+            nx = [r["nx"] for r in sorted(first, key=lambda r: r["radialIndex"])]
+            ny = [[r for r in regs if r["eqname"] == n][0]["ny_noguards"] for n in names]
+        return topo, nx, ny
 
     def psi_scale(self):
         pv = [v for r in self.extra["regions"] for v in r["psi_vals"]]
